@@ -173,6 +173,8 @@ pub struct Defaults {
     pub nf_id: u64,
     /// generate `Some(..)` rather than `None` for two-variant enums whose first variant is empty
     pub some: bool,
+    /// prefer account B (and the second entity of each kind) for component references
+    pub prefer_b: bool,
 }
 
 #[derive(Clone, Debug)]
@@ -434,6 +436,15 @@ impl<'a> Gen<'a> {
             .chain(self.pools.globals.iter().cloned())
             .chain(self.pools.internals.iter().cloned())
             .collect();
+        let mut all = all;
+        if self.d.prefer_b {
+            // B before A
+            let b = *self.w.w.b.addr.as_node_id();
+            if let Some(i) = all.iter().position(|(_, n)| *n == b) {
+                let e = all.remove(i);
+                all.insert(1, e);
+            }
+        }
         let mut seen_bp_bad: Vec<&str> = vec![];
         for (bp, n) in &all {
             if self.ref_ok(&val, bp, n) {
@@ -965,5 +976,16 @@ pub fn g2s(g: &G) -> ScryptoValue {
         G::Enum(d, f) => Value::Enum { discriminator: *d, fields: f.iter().map(g2s).collect() },
         G::Array(k, e) => Value::Array { element_value_kind: svk(k), elements: e.iter().map(g2s).collect() },
         G::Map(kk, vk, e) => Value::Map { key_value_kind: svk(kk), value_value_kind: svk(vk), entries: e.iter().map(|(k, v)| (g2s(k), g2s(v))).collect() },
+    }
+}
+
+/// structural conversion of a concrete manifest value (hand-registered default) into a tree whose nodes can be deviated
+pub fn mv2g(v: &ManifestValue) -> G {
+    match v {
+        Value::Tuple { fields } => G::Tuple(fields.iter().map(mv2g).collect()),
+        Value::Enum { discriminator, fields } => G::Enum(*discriminator, fields.iter().map(mv2g).collect()),
+        Value::Array { element_value_kind, elements } => G::Array(*element_value_kind, elements.iter().map(mv2g).collect()),
+        Value::Map { key_value_kind, value_value_kind, entries } => G::Map(*key_value_kind, *value_value_kind, entries.iter().map(|(k, v)| (mv2g(k), mv2g(v))).collect()),
+        other => G::V(other.clone()),
     }
 }
